@@ -365,6 +365,8 @@ func (c20) Eval(c *Chooser, env *Env) *Outcome {
 		w.Opts.Shellcheck = "shellcheck"
 		if c.Weighted("world.toolcmdline", 1, 4) {
 			w.Opts.Shellcheck = "shellcheck --severity=style" // a command line instead of an executable name
+		} else if c.Weighted("world.toolpathblank", 1, 6) {
+			w.Opts.Shellcheck = "/opt/my tools/shellcheck" // an executable whose path contains a blank
 		}
 	}
 	if c.Weighted("world.gomaxprocs", 1, 4) {
@@ -372,6 +374,9 @@ func (c20) Eval(c *Chooser, env *Env) *Outcome {
 	}
 	if havePF || tools.Missing["pyflakes"] {
 		w.Opts.Pyflakes = "pyflakes"
+		if havePF && c.Weighted("world.pytoolpathblank", 1, 8) {
+			w.Opts.Pyflakes = "/opt/my tools (x86)/pyflakes"
+		}
 	}
 	if len(files) == 1 && c.Bool("world.singleapi") {
 		w.API = APIFile
@@ -382,6 +387,10 @@ func (c20) Eval(c *Chooser, env *Env) *Outcome {
 		w.API = APIMain
 		w.Args = []string{"-format", "{{json .}}", "-no-color", "-shellcheck=" + w.Opts.Shellcheck, "-pyflakes=" + w.Opts.Pyflakes}
 		w.Args = append(w.Args, w.Files...)
+	}
+	if !viaMain {
+		// (through the command line the log shares stderr with the fatal error, which is compared)
+		ApplyLogLevel(c, w)
 	}
 	if !viaMain && c.Weighted("world.ruleshook", 1, 8) {
 		// a library user's OnRulesCreated hook reorders or prunes the rule list: the tool rules come first
